@@ -198,6 +198,19 @@ func (e *End) Write(p []byte) (int, error) {
 			c.w.Fault("write-park")
 			c.w.Rec(Ev{Actor: e.actor, Kind: "write-blocked", Conn: c.ID, A: int64(len(p))})
 			c.w.parkAlways("write")
+			// the peer did not read for a while: if the code under test armed a write
+			// deadline and it has passed meanwhile, only part of the data went out
+			c.mu.Lock()
+			late := !e.wdeadline.IsZero() && !time.Now().Before(e.wdeadline) && !e.closed
+			if late {
+				n := len(p) / 2
+				e.wr.push(p[:n])
+				c.mu.Unlock()
+				e.peer().poke()
+				c.w.Rec(Ev{Actor: e.actor, Kind: "write", Conn: c.ID, A: int64(n), B: int64(len(p)), S: "write-deadline", Bytes: cp})
+				return n, &net.OpError{Op: "write", Net: "tcp", Err: timeoutError{}}
+			}
+			c.mu.Unlock()
 		}
 	}
 	c.mu.Lock()
